@@ -96,6 +96,9 @@ package cachekv
 //@   ensures [flushed] forall k string :: pkv.m[store.parent][k] == old(ite(has(store.cache, k), store.cache[k].value, pkv.m[store.parent][k]))
 //@   ensures [others] pkv.m == upd(old(pkv.m), store.parent, pkv.m[store.parent])
 //@   ensures [clean] forall k string :: !has(store.cache, k) && !has(store.unsortedCache, k)
+// ... and the sorted list iterators are built from is a NEW list: nothing of the flushed round (values, tombstones)
+// can show through a later iterator (seed C15g). The list's content is library state; its identity is not.
+//@   ensures [clean-sorted] fresh(store.sortedCache) && store.sortedCache != nil
 //@   ensures [unlocked] store.mtx == 0
 
 // C15 (iteration, part): dirtyItems hands to the sorted list exactly the dirty keys that lie in the
